@@ -355,6 +355,7 @@ def add_scenarios(repo: Repo) -> RuleRun:
                 v.set("position", args[0])
                 v.set("index", args[1])
                 v.set("projected_to", [])
+                v.set("description", f"<{v._name}>")
                 return v
             return dist_hook()(ev, call, name)
 
@@ -384,6 +385,8 @@ def add_scenarios(repo: Repo) -> RuleRun:
         ("two different slave sets at one point, revisited", [(1, ["a"]), (1, ["b"]), (1, ["b"]), (1, ["a"]), (1, ["a", "b"]), (1, ["b", "a"])]),
         ("several points and patch sets interleaved", [(1, ["a"]), (2, ["a"]), (1, []), (2, ["a"]), (3, []), (1, ["a"]), (3, [])]),
         ("slave set at another point is not reused", [(1, ["a"]), (2, ["a"]), (2, [])]),
+        ("a copy made for two slave patches does not serve a corner on one of them", [(1, ["inner", "wall"]), (1, ["wall"]), (1, []), (1, ["inner"]), (1, ["wall"])]),
+        ("patch names that differ only in where the underscore is", [(1, ["inner", "wall"]), (1, ["inner_wall"])]),
     ]
     # projections declared on corners that share a vertex: the vertex carries the union, whatever the order, each label once,
     # and the label lists of the operations' own points are left as they were
@@ -430,6 +433,24 @@ def add_scenarios(repo: Repo) -> RuleRun:
         if len(verts) != len(groups):
             problems.append(f"{len(verts)} vertices created for {len(groups)} distinct (position, slave set) classes")
         r.check(not problems, add, f"{label}: {len(verts)} vertices", f"VertexList.add, sequence '{label}' {seq}: " + "; ".join(problems), add.node, key=label)
+        # the written list: entry k is vertex k (the hex lines refer to vertices by their index)
+        if label in ("slave copy then master side", "several points and patch sets interleaved", "two different slave sets at one point, revisited"):
+            desc = repo.func("lists.vertex_list.VertexList.description")
+            try:
+                text = Evaluator(repo=repo, module=desc.module).call_funcinfo(desc, [vl])
+            except (Raised, NotEvaluable) as err:
+                raise AnalysisError(f"VertexList.description not evaluable after the sequence '{label}': {err}") from err
+            order = re.findall(r"<(V\d+)>", text if isinstance(text, str) else "")
+            want_order = [v._name for v in verts]
+            r.check(
+                order == want_order,
+                desc,
+                f"{label}: written order {order}",
+                f"VertexList.description after the sequence '{label}' lists the vertices as {order}; their indexes - which the hex, edge and face entries use - are {want_order}: entry k of the written "
+                "list is no longer vertex k (copies made for slave patches are listed out of place)",
+                desc.node,
+                key=f"written-order:{label}",
+            )
     return r
 
 
